@@ -738,6 +738,10 @@ class HomeKitConnection:
                     self._last_connector_error,
                     interval,
                 )
+                # Every address still worth trying has now failed: forget which
+                # ones answered as another accessory so that none of them stays
+                # excluded forever while the remaining ones are unreachable.
+                self._pair_verify_failed_hosts.clear()
                 interval = min(60, 1.5 * interval)
                 self._reconnect_future = self._loop.create_future()
                 try:
